@@ -860,7 +860,16 @@ func init() {
 								for _, ins2 := range b.Instrs {
 									if st2, ok := ins2.(*ssa.Store); ok {
 										if fa2, ok := st2.Addr.(*ssa.FieldAddr); ok && fa2.X == fa.X && fieldElem(fa2.X.Type(), fa2.Field) == "Url:"+p {
-											found = true
+											// a store of the field's own value (`url.decodedPort = url.decodedPort`) stores nothing
+											self := false
+											if ld, ok := st2.Val.(*ssa.UnOp); ok && ld.Op == token.MUL {
+												if fa3, ok := ld.X.(*ssa.FieldAddr); ok && fa3.X == fa2.X && fa3.Field == fa2.Field {
+													self = true
+												}
+											}
+											if !self {
+												found = true
+											}
 										}
 									}
 								}
